@@ -56,6 +56,35 @@ fn main() {
         for (n, f) in fates(&sim, st.pid) { println!("  {} => {}", n, match f { Fate::Done(v) => v.show(), o => format!("{:?}", o) }); }
         return;
     }
+    if args.len() >= 3 && args[1] == "heap" {
+        let src = if std::path::Path::new(&args[2]).exists() { std::fs::read_to_string(&args[2]).unwrap() } else { args[2].clone() };
+        let b = vh::qv::builtins();
+        let bc = match compile_entry(&src, &b) { Ok(bc) => bc, Err(e) => { println!("compile error: {:?}", e); return; } };
+        vh::pool::quiet_panics();
+        let mut rng = vh::rng::Rng::new(7);
+        let mut bad = 0;
+        for cfg in vh::c03::sched_variants(&mut rng, 60) {
+            let mut sim = Sim::new(cfg.workers, &b, false, None);
+            sim.heap_monitor = true;
+            let st = start_program(&mut sim, bc.clone()).unwrap();
+            let mut r = vh::rng::Rng::new(cfg.seed);
+            let root = st.pid;
+            let mut end = RunEnd::Stopped;
+            if cfg.seed % 2 == 1 {
+                end = sim.run(Strategy::StarveEnv, QuantumPolicy::Fixed(1), &mut r, 100000, &|| false, &mut |s: &mut Sim| s.process(root).and_then(|p| p.select_state.as_ref()).map(|x| matches!(x.receiving, Some((1, _)))).unwrap_or(false));
+                if end == RunEnd::Stopped { println!("directed: mid-filter on receive source 1 reached, releasing everything"); sim.set_eager(true); }
+            }
+            if end == RunEnd::Stopped { end = sim.run(if cfg.seed % 2 == 1 { Strategy::Eager } else { cfg.strat }, cfg.qp, &mut r, 100000, &|| false, &mut |_s| false); }
+            sim.settle();
+            if sim.heap_obs_max.exact_mismatch > 0 { println!("exact multiplicity mismatches observed: {}", sim.heap_obs_max.exact_mismatch); }
+            if sim.heap_violation.is_some() || matches!(end, RunEnd::Trouble(_)) {
+                bad += 1;
+                if bad <= 2 { let hv = sim.heap_violation.clone(); let root = poll_root(&mut sim, &st).map(|r| canon_root(&sim, &r, st.pid)); println!("workers={} {:?} {:?}: end={:?} heap={:?} root={:?}", cfg.workers, cfg.strat, cfg.qp, end, hv, root); }
+            }
+        }
+        println!("{} of 60 schedules violated", bad);
+        return;
+    }
     if args.len() >= 3 && args[1] == "gen" {
         let seed: u64 = args[2].parse().unwrap();
         let mut rng = vh::rng::Rng::new(seed);
